@@ -10,7 +10,7 @@ package ext
 
 // Read (fixed length): never takes more bytes from the wire than the body still has.
 //@ func bodyStream.Read(rs, p) n, err
-//@   props C14
+//@   props C14, C11
 //@   nosafety
 //@   replay-import errors
 //@   replay-import github.com/cloudwego/hertz/pkg/common/bytebufferpool
@@ -67,13 +67,14 @@ package ext
 // wire, so the next request starts at the first byte after the body. Chunked: a chunk-size line is only
 // parsed when no chunk data is pending.
 //@ func bodyStream.skipRest(rs) err
-//@   props C14
+//@   props C14, C11
 //@   nosafety
 //@   replay-import errors
 //@   replay-import github.com/cloudwego/hertz/pkg/common/bytebufferpool
 //@   replay-decl type vcgoWire2 struct{ b []byte; pos int }; func (w *vcgoWire2) Peek(n int) ([]byte, error) { if w.pos+n > len(w.b) { return w.b[w.pos:], errors.New("EOF") }; return w.b[w.pos : w.pos+n], nil }; func (w *vcgoWire2) Skip(n int) error { if w.pos+n > len(w.b) { return errors.New("EOF") }; w.pos += n; return nil }; func (w *vcgoWire2) Release() error { return nil }; func (w *vcgoWire2) Len() int { return len(w.b) - w.pos }; func (w *vcgoWire2) ReadByte() (byte, error) { if w.pos >= len(w.b) { return 0, errors.New("EOF") }; w.pos++; return w.b[w.pos-1], nil }; func (w *vcgoWire2) ReadBinary(n int) ([]byte, error) { p, err := w.Peek(n); if err != nil { return nil, err }; w.pos += n; return append([]byte(nil), p...), nil }
 //@   replay-go w := &vcgoWire2{b: []byte("a\r\n0123456789\r\n0\r\n\r\nGET /next HTTP/1.1\r\n\r\n")}; rs := AcquireBodyStream(&bytebufferpool.ByteBuffer{}, w, nil, -1); buf := make([]byte, 3); rs.Read(buf); err := ReleaseBodyStream(rs); if err != nil || string(w.b[w.pos:]) != "GET /next HTTP/1.1\r\n\r\n" { fmt.Printf("VCGO-VIOLATED after reading 3 bytes of a 10-byte chunk, releasing the stream returned %v and left the wire at %q\n", err, string(w.b[w.pos:])) }
 //@   replay-go w := &vcgoWire2{b: []byte("GET /next HTTP/1.1\r\n\r\n")}; pre := &bytebufferpool.ByteBuffer{}; pre.B = append(pre.B, "0123456789"...); rs := AcquireBodyStream(pre, w, nil, 10); buf := make([]byte, 6); rs.Read(buf); err := ReleaseBodyStream(rs); if err != nil || w.pos != 0 { fmt.Printf("VCGO-VIOLATED a 10-byte body that was prefetched completely: after reading 6 bytes, releasing the stream returned %v and took %d bytes of the next request off the wire\n", err, w.pos) }
+//@   replay-go body := strings.Repeat("b", 90); w := &vcgoWire2{b: []byte(body + "HTTP/1.1 200 OK\r\n\r\n")}; pre := &bytebufferpool.ByteBuffer{}; pre.B = append(pre.B, "0123456789"...); rs := AcquireBodyStream(pre, w, nil, 100); err := ReleaseBodyStream(rs); if err != nil || w.pos != 90 { fmt.Printf("VCGO-VIOLATED a 100-byte body of which 10 bytes were prefetched and nothing was read: releasing the stream returned %v and took %d bytes off the wire (90 belong to the body)\n", err, w.pos) }
 //@   requires rs.contentLength >= 0 && rs.prefetchedBytes != nil ==> bsFixed(rs)
 //@   requires rs.reader != nil
 //@   requires rs.reader.avail >= 0
